@@ -44,6 +44,34 @@ package service
 
 //@ ghost recv (Array Int (Array Bytes Bool))
 
+// The pending container is shared by the network handlers, the packer and the block bookkeeping (C17, the
+// concurrency clause): its map must be created in its locking mode. Concurrency itself is outside sequential
+// contracts; that the lock exists is a fact about the constructor. ghost lmsafe[m]: list map m was created safe.
+//@ ghost lmsafe (Array Int Bool)
+//@ func ext_newListMap
+//@   option trusted extern=github.com/gogf/gf/container/gmap.NewListMap
+//@   ensures result != nil && fresh(result) && @select(ghost(lmsafe), ref(result)) == (len(arg0) > 0 && arg0[0])
+//@   modifies ghost(lmsafe)
+
+//@ func ext_newDatabase
+//@   option trusted extern=com.tuntun.rangers/node/src/middleware/db.NewDatabase
+//@   modifies nothing
+
+//@ func ext_newTicker
+//@   option trusted extern=time.NewTicker
+//@   ensures result != nil
+//@   modifies nothing
+
+//@ func simpleContainer.loop
+//@   option trusted
+//@   modifies nothing
+
+//@ func newSimpleContainer
+//@   property C17
+//@   requires txPoolLogger != nil
+//@   ensures [threadsafe] result != nil && result.data != nil && @select(ghost(lmsafe), ref(result.data))
+//@   modifies ghost(lmsafe)
+
 //@ func simpleContainer.contains
 //@   option trusted
 //@   requires c != nil
